@@ -6,6 +6,8 @@
 //! case lines are fed to the extracted Coq model by the OCaml driver; the
 //! python driver diffs `impl.txt` against `model.txt` line by line.
 
+pub mod stack;
+
 use std::collections::BTreeMap;
 use std::fmt::Write as _;
 use std::io::Write as _;
